@@ -103,3 +103,11 @@ reg("C08",
     level_note="Trusted: numpy.interp, vf/oracle/integrals.py for Hs. Target direction grids are uniform full-circle so that their bin width is defined; spectra whose interpolant has no energy are inconclusive for conservation.",
     rule="case = (mode[:target kind] x source direction storage x nf x nd x leading dims x maintain_m0 x entry point) per invariant; rotate: (angle kind x storage x nf x nd); distinct = distinct keys",
     must_observe=["coords_exact", "identity", "conservation", "reference", "nonnegative", "zero_above_fmax", "rotate", "rotate_coords"])
+
+reg("C09",
+    technique="runtime reference-rule monitor: recorded ptm4/ptm5/bbox/split/stats(limits) outputs vs bin membership computed independently from the stated rule (incl. bins placed exactly on the wave-age boundary), disjointness and exact-sum invariants",
+    level_text="PTM4 masks are recomputed per position from celerity (the library's, cross-checked to 0.1 % against the exact dispersion root) and the independent wind component, with workloads that place a bin exactly on the boundary; bbox membership by the closed box with omitted limits = grid extent, complement last, overlap must raise ValueError; split keeps in-band bins bit-identical and adds the linear interpolant at off-node cutoffs (also when no grid frequency lies inside the band); PTM5 is zero strictly beyond the cutoff and equals input x one factor elsewhere; stats with limits equal stats of the explicit split. Held = on the executions observed.",
+    level_note="Trusted: numpy; the exact dispersion solve in vf/oracle/integrals.py. Bins whose celerity and wind component differ by < 1e-9 relative without being equal are inconclusive; box edges avoid grid nodes so that 'sharing a bin' is unambiguous.",
+    rule="case = (method x stored direction order x dtype x leading dims x [boundary placement | cutoff on/off node | number of boxes, omitted limits, sharing | band kind]); distinct = distinct keys",
+    must_observe=["ptm4", "ptm5", "bbox", "bbox_overlap_rejected", "split", "stats_with_limits"],
+    must_note=["ptm4_bins_exactly_on_boundary"])
